@@ -105,13 +105,310 @@ def zll(rows):
     return '[' + '; '.join(zlist(r) for r in rows) + ']'
 
 
+class Watchdog(BaseException):
+    """raised by SIGALRM: a simulator run that neither finishes nor goes idle (e.g. a pure-CPU loop)"""
+
+
+def multi_party(ctx, ok):
+    """Every random function in the m-party simulator: (m,t) in {(1,0),(3,1),(5,2)} x PRSS on/off, over secint, secfxp,
+    SecFld(101) and GF(2^8): range/shape/type, permutations, derangements, samples, unit vectors, all parties agree; plus
+    tape-level correspondence of the single-call functions at m = 3 (bits substituted as public constants)."""
+    import signal, time, random as pyrandom
+    from lib.sim import Sim, Fifo, RandomOrder
+
+    def on_alarm(signum, frame):
+        raise Watchdog()
+    old = signal.signal(signal.SIGALRM, on_alarm)
+    rng = ctx.rng
+    reps = ctx.n(4, 10)
+    P = 101
+
+    class TimeLimited:
+        """stops delivering after the deadline, so that a run that keeps exchanging messages for ever goes idle"""
+        def __init__(self, inner, seconds):
+            self.inner, self.deadline = inner, time.time() + seconds
+
+        def deliver(self, net):
+            return 0 if time.time() > self.deadline else self.inner.deliver(net)
+
+    def jobs_for(stname):
+        J = []
+        fld = stname in ('secfld', 'gf256')
+        J += [('getrandbits', {'k': k}) for k in (0, 1, 6)]
+        J += [('getrandbits_bits', {'k': 5})]
+        J += [('randrange', {'a': 0, 'b': n, 's': 1}) for n in (1, 2, 3, 10, 12, 16, 100)]
+        if stname != 'gf256':
+            J += [('randrange', {'a': 3, 'b': 40, 's': 5}), ('randint', {'a': 2, 'b': 9})]
+        if not fld:
+            J += [('randrange', {'a': 10, 'b': -7, 's': -3}), ('randint', {'a': -3, 'b': 3})]
+        J += [('unit_vector', {'n': n}) for n in (1, 2, 5, 8, 13)]
+        J += [('choice', {'seq': [4, 9, 2, 7, 5]}), ('choices', {'pop': [4, 9, 2], 'k': 3})]
+        if not fld:
+            J += [('choices_w', {'pop': [4, 9, 2], 'w': [1, 3, 2], 'k': 2}), ('choices_cw', {'pop': [4, 9], 'cw': [2, 6], 'k': 2})]
+        J += [('shuffle', {'x': [3, 9, 5, 1, 7]}), ('shuffle_rows', {'x': [[1, 2], [3, 4], [5, 6]]}), ('permutation', {'n': 6})]
+        J += [('derangement', {'n': 6})] * reps + [('derangement_list', {'x': [8, 3, 5]})] * 2
+        J += [('sample_range', {'r': [0, 6, 1], 'k': 5})] * reps + [('sample_pop', {'pop': [3, 9, 5, 1, 7], 'k': 3})]
+        if stname != 'gf256':
+            J += [('sample_range', {'r': [2, 30, 4], 'k': 4})]
+        if stname == 'secfxp':
+            J += [('random', {}), ('uniform', {'a': 1.0, 'b': 2.5}), ('uniform', {'a': 0.5, 'b': -1.25}), ('uniform', {'a': 3.0, 'b': 3.0})]
+        return J
+
+    def make_prog(stname, jobs, tapes=None):
+        async def prog(mpc, mods, pid):
+            mr = mods['mpyc.random']
+            ff = mods['mpyc.finfields']
+            st = {'secint': lambda: mpc.SecInt(16), 'secfxp': lambda: mpc.SecFxp(16, 4), 'secfld': lambda: mpc.SecFld(P),
+                  'gf256': lambda: mpc.SecFld(2 ** 8)}[stname]()
+
+            def conv(v):
+                if isinstance(v, list):
+                    return [conv(a) for a in v]
+                if isinstance(v, ff.FiniteFieldElement):
+                    return int(v)
+                if isinstance(v, float):
+                    return int(v) if v == int(v) else v
+                return int(v)
+
+            async def opened(x):
+                """-> (value, typed): typed = every number was an instance of the requested secure type (or a public number
+                in the documented n == 1 corner)"""
+                if isinstance(x, list):
+                    rs = [await opened(a) for a in x]
+                    return [r[0] for r in rs], all(r[1] for r in rs)
+                if isinstance(x, (int, float)):
+                    return conv(x), 'public'
+                return conv(await mpc.output(x)), isinstance(x, st)
+            out = []
+            for ji, (name, pr) in enumerate(jobs):
+                if tapes is not None:
+                    px = tapes[ji](mpc, st)
+                    mr.runtime = px
+                try:
+                    if name == 'getrandbits':
+                        r = mr.getrandbits(st, pr['k'])
+                    elif name == 'getrandbits_bits':
+                        r = mr.getrandbits(st, pr['k'], bits=True)
+                    elif name == 'randbelow_bits':
+                        r = mr._randbelow(st, pr['n'], bits=True)
+                    elif name == 'randrange':
+                        r = mr.randrange(st, pr['a'], pr['b'], pr['s'])
+                    elif name == 'randint':
+                        r = mr.randint(st, pr['a'], pr['b'])
+                    elif name == 'unit_vector':
+                        r = mr.random_unit_vector(st, pr['n'])
+                    elif name == 'choice':
+                        r = mr.choice(st, list(pr['seq']))
+                    elif name == 'choices':
+                        r = mr.choices(st, list(pr['pop']), k=pr['k'])
+                    elif name == 'choices_w':
+                        r = mr.choices(st, list(pr['pop']), weights=list(pr['w']), k=pr['k'])
+                    elif name == 'choices_cw':
+                        r = mr.choices(st, list(pr['pop']), cum_weights=list(pr['cw']), k=pr['k'])
+                    elif name == 'shuffle':
+                        r = list(pr['x'])
+                        mr.shuffle(st, r)
+                    elif name == 'shuffle_rows':
+                        r = [list(row) for row in pr['x']]
+                        mr.shuffle(st, r)
+                    elif name == 'permutation':
+                        r = mr.random_permutation(st, pr['n'])
+                    elif name == 'derangement':
+                        r = mr.random_derangement(st, pr['n'])
+                    elif name == 'derangement_list':
+                        r = mr.random_derangement(st, list(pr['x']))
+                    elif name == 'sample_range':
+                        r = mr.sample(st, range(*pr['r']), pr['k'])
+                    elif name == 'sample_pop':
+                        r = mr.sample(st, list(pr['pop']), pr['k'])
+                    elif name == 'random':
+                        r = mr.random(st)
+                    elif name == 'uniform':
+                        r = mr.uniform(st, pr['a'], pr['b'])
+                    v, typed = await opened(r)
+                    rec = [v, typed]
+                    if tapes is not None:
+                        rec.append([px.pos, px.over])
+                    out.append(rec)
+                except Exception as e:  # noqa
+                    out.append(['EXC', repr(e)[:200]])
+                finally:
+                    if tapes is not None:
+                        mr.runtime = mpc
+            return out
+        return prog
+
+    def oracle(stname, name, pr, v):
+        """None if v has the documented range/shape"""
+        modp = (lambda a: a % P) if stname == 'secfld' else (lambda a: a)
+
+        def ints(l):
+            return isinstance(l, list) and all(isinstance(a, int) for a in l)
+        if name == 'getrandbits':
+            return None if isinstance(v, int) and 0 <= v < 2 ** pr['k'] else 'not a k-bit value'
+        if name in ('getrandbits_bits',):
+            return None if ints(v) and len(v) == pr['k'] and set(v) <= {0, 1} else 'not k bits'
+        if name == 'randbelow_bits':
+            k = (pr['n'] - 1).bit_length()
+            return None if ints(v) and len(v) == k and set(v) <= {0, 1} and sum(b << i for i, b in enumerate(v)) < pr['n'] else 'bits not below n'
+        if name == 'randrange':
+            return None if v in [modp(a) for a in range(pr['a'], pr['b'], pr['s'])] else 'not in range'
+        if name == 'randint':
+            return None if v in [modp(a) for a in range(pr['a'], pr['b'] + 1)] else 'not in [a,b]'
+        if name == 'unit_vector':
+            return None if ints(v) and len(v) == pr['n'] and sorted(v) == [0] * (pr['n'] - 1) + [1] else 'not a unit vector'
+        if name == 'choice':
+            return None if v in pr['seq'] else 'not a member'
+        if name in ('choices', 'choices_w', 'choices_cw'):
+            return None if isinstance(v, list) and len(v) == pr['k'] and all(a in pr['pop'] for a in v) else 'not k members'
+        if name in ('shuffle', 'derangement_list'):
+            if not (isinstance(v, list) and sorted(map(repr, v)) == sorted(map(repr, pr['x']))):
+                return 'not a permutation'
+            return 'fixed point' if name == 'derangement_list' and any(a == b for a, b in zip(v, pr['x'])) else None
+        if name == 'shuffle_rows':
+            return None if isinstance(v, list) and sorted(map(repr, v)) == sorted(map(repr, pr['x'])) else 'not a permutation of the rows'
+        if name in ('permutation', 'derangement'):
+            if not (ints(v) and sorted(v) == list(range(pr['n']))):
+                return 'not a permutation'
+            return 'fixed point' if name == 'derangement' and any(a == i for i, a in enumerate(v)) else None
+        if name == 'sample_range':
+            rg = [modp(a) for a in range(*pr['r'])]
+            return None if ints(v) and len(v) == pr['k'] and len(set(v)) == pr['k'] and all(a in rg for a in v) else 'not k distinct range elements'
+        if name == 'sample_pop':
+            return None if ints(v) and len(v) == pr['k'] and len(set(v)) == pr['k'] and set(v) <= set(pr['pop']) else 'not a sub-selection'
+        if name == 'random':
+            return None if isinstance(v, (int, float)) and 0 <= v < 1 and v * 16 == int(v * 16) else 'not in [0,1) on the grid'
+        if name == 'uniform':
+            lo, hi = min(pr['a'], pr['b']), max(pr['a'], pr['b'])
+            return None if isinstance(v, (int, float)) and lo <= v <= hi else 'outside [a,b]'
+        return 'unknown job'
+
+    def run_config(m, t, no_prss, stname, jobs, policy, tapes=None, limit=20):
+        """-> per-party results or None after reporting a violation"""
+        cfg = 'm=%d t=%d %s %s' % (m, t, 'no-prss' if no_prss else 'prss', stname)
+        sim = Sim(m, t, no_prss=no_prss, seed=ctx.seed * 131 + m, log_messages=False, track_tasks=False)
+        res = None
+        signal.setitimer(signal.ITIMER_REAL, limit + 30)
+        try:
+            sim.start()
+            if not sim.started:
+                ctx.violation('sim-start-failed ' + cfg, {'config': cfg})
+                return None
+            res = sim.run(make_prog(stname, jobs, tapes), TimeLimited(policy, limit), idle_limit=400)
+            if all(isinstance(r, list) for r in res):
+                sim.shutdown()
+        except Watchdog:
+            ctx.violation('sim-no-progress ' + cfg, {'config': cfg, 'why': 'neither finished nor idle within %d s' % (limit + 30)})
+            return None
+        finally:
+            signal.setitimer(signal.ITIMER_REAL, 0)
+            try:
+                sim.close()
+            except Watchdog:
+                pass
+        if not all(isinstance(r, list) for r in res):
+            ctx.violation('sim-parties-hang ' + cfg, {'config': cfg, 'results': [r if not isinstance(r, list) else 'done(%d)' % len(r) for r in res],
+                                                     'why': 'some party never completed (parties diverged or wait for ever)'})
+            return None
+        if any(r != res[0] for r in res[1:]):
+            bad = next(i for i in range(len(jobs)) if any(r[i] != res[0][i] for r in res[1:]))
+            ctx.violation('sim-parties-disagree %s %s' % (cfg, jobs[bad][0]), {'config': cfg, 'job': list(jobs[bad]), 'per_party': [r[bad] for r in res]})
+            return None
+        return res[0]
+
+    configs = [(1, 0, False), (3, 1, False), (3, 1, True), (5, 2, False), (5, 2, True)]
+    if ctx.tier == 'thorough':
+        configs += [(1, 0, True), (2, 0, False), (2, 0, True), (4, 1, False), (4, 1, True)]
+    t0 = time.time()
+    ncalls = 0
+    try:
+        for ci, (m, t, no_prss) in enumerate(configs):
+            for stname in ('secint', 'secfxp', 'secfld', 'gf256'):
+                jobs = jobs_for(stname)
+                policy = RandomOrder(pyrandom.Random(ctx.seed * 17 + ci)) if (ci + len(stname)) % 3 == 0 else Fifo()
+                r0 = run_config(m, t, no_prss, stname, jobs, policy)
+                cfg = 'm=%d t=%d %s %s' % (m, t, 'no-prss' if no_prss else 'prss', stname)
+                if r0 is None:
+                    continue
+                for (name, pr), rec in zip(jobs, r0):
+                    ncalls += 1
+                    ctx.case({'sim': cfg, 'fn': name, 'params': pr, 'i': ncalls}, nontrivial=m > 1, kind='sim/' + name)
+                    if rec[0] == 'EXC':
+                        ctx.violation('%s-exception %s' % (name, cfg), {'config': cfg, 'job': [name, pr], 'exception': rec[1]})
+                        continue
+                    v, typed = rec[0], rec[1]
+                    msg = oracle(stname, name, pr, v)
+                    if msg:
+                        ctx.violation('%s-shape %s %s: %s' % (name, cfg, pr, msg), {'config': cfg, 'job': [name, pr], 'got': v, 'why': msg})
+                    public_ok = (name in ('randrange', 'randint', 'uniform', 'getrandbits', 'getrandbits_bits', 'sample_range') or
+                                 (name == 'randbelow_bits'))
+                    if typed is False or (typed == 'public' and not public_ok):
+                        ctx.violation('%s-type %s' % (name, cfg), {'config': cfg, 'job': [name, pr], 'got': v,
+                                                                  'why': 'result is not of the requested secure type'})
+        ctx.extra['sim_calls'] = ncalls
+        ctx.log('simulator: %d calls over %d configurations x 4 types in %.1fs' % (ncalls, len(configs), time.time() - t0))
+        # ---- tape-level correspondence at m = 3 (single-call functions: the draw order is that of the model) ----------
+        class TapeRT:
+            def __init__(self, rt, st, bits):
+                self.__dict__.update(_rt=rt, _st=st, tape=bits, pos=0, over=False)
+
+            def __getattr__(self, name):
+                return getattr(self._rt, name)
+
+            def random_bits(self, sectype, n, signed=False):
+                if self.pos + n > len(self.tape):
+                    self.__dict__['over'] = True
+                    return [sectype(0)] * n
+                b = self.tape[self.pos:self.pos + n]
+                self.__dict__['pos'] += n
+                return [sectype(a) for a in b]
+        tjobs, tbits, texpr = [], [], []
+        for n in (3, 5, 6, 7, 11, 12, 1, 8):
+            for _ in range(ctx.n(2, 6)):
+                for name, coqf in (('randrange', 'randbelow (fuel_for tp) %s tp' % zlit(n)),
+                                   ('randbelow_bits', 'randbelow_bits (fuel_for tp) %s tp' % zlit(n)),
+                                   ('unit_vector', 'random_unit_vector (fuel_for tp) %s tp' % zlit(n))):
+                    bits = [rng.randrange(2) for _ in range(40)]
+                    pr = {'a': 0, 'b': n, 's': 1} if name == 'randrange' else {'n': n}
+                    tjobs.append((name, pr))
+                    tbits.append(bits)
+                    texpr.append((coqf, bits))
+        tapes = [(lambda mpc, st, b=b: TapeRT(mpc, st, b)) for b in tbits]
+        for stname, no_prss in (('secint', False), ('secfld', True)):
+            r0 = run_config(3, 1, no_prss, stname, tjobs, Fifo(), tapes=tapes)
+            if r0 is None or not ok:
+                continue
+            exprs = ['let tp := tape_of 40%%nat 0x%x%%Z in %s' % (sum(b << i for i, b in enumerate(bits)), coqf) for coqf, bits in texpr]
+            mres = ctx.coq_eval(['MPyC.RandomFns'], exprs, chunk=400, preamble='Open Scope Z_scope.')
+            mism = 0
+            for (name, pr), rec, mv, (coqf, bits) in zip(tjobs, r0, mres, texpr):
+                ctx.case({'sim-tape': stname, 'fn': name, 'params': pr, 'tape': bits}, kind='sim-tape/' + name)
+                if rec[0] == 'EXC' or rec[2][1]:
+                    ctx.broken.append({'kind': 'correspondence', 'what': 'm=3 tape run failed', 'job': [name, pr], 'rec': str(rec)[:200]})
+                    mism += 1
+                    continue
+                want = ('Some', (rec[0], bits[rec[2][0]:]))
+                if mv != want:
+                    mism += 1
+                    if len(ctx.broken) < 30:
+                        ctx.broken.append({'kind': 'correspondence', 'what': 'm=3 tape', 'st': stname, 'job': [name, pr], 'tape': bits,
+                                           'impl': str(want)[:200], 'model': str(mv)[:200]})
+            ctx.extra['sim_tape_traces_%s' % stname] = len(tjobs) - mism
+            ctx.log('m=3 %s tape correspondence: %d cases, %d disagreements' % (stname, len(tjobs), mism))
+    finally:
+        signal.setitimer(signal.ITIMER_REAL, 0)
+        signal.signal(signal.SIGALRM, old)
+
+
+
 def run(ctx):
     import sys
+    ok = ctx.build(['MPyC.RandomFns']) and ctx.check_props()
+    multi_party(ctx, ok)       # first: the simulator loads and unloads its own copies of the package
     sys.argv = [sys.argv[0], '--no-log']
     from mpyc.runtime import mpc
     import mpyc.random as mr
     import mpyc.finfields as ff
-    ok = ctx.build(['MPyC.RandomFns']) and ctx.check_props()
     mpc.run(mpc.start())
     assert mpc.options.no_async and mr.runtime is mpc
     rng = ctx.rng
